@@ -169,6 +169,10 @@ POOL = [True, False, 0, 1, -1, {"big": 1}, 0.0, 1.5, "", "a", "NodeA", {"none": 
         False, False, {"tuple": [False]}, {"tuple": [{"none": 1}, {"none": 1}]}, {"fs": [{"tuple": []}, {"tuple": [{"none": 1}]}]}]
 
 
+ODD_NAMES = ["content", "con", "tent", "on", "i", "d", "c", "o", "n", "t", "e", "nt", "ori", "gin", "rig", "r", "g", "_", "id_", "ids",
+             "origins", "content_ids", "source", "position", "fqn", "type", "cls", "node", "parent"]
+
+
 def gen_conforming(a: dict, d: Det) -> Any:
     k = a["k"]
     if k == "scalar":
@@ -277,7 +281,10 @@ def check_construction(data: dict, lab: Labels) -> None:
                     v = {"tuple": [*xs, xs[-1]]} if d.chance(1, 2) else {"tuple": xs[:-1]}
                 else:
                     v = corrupt(v, d)
-        name = f"f{i}"
+        # half of the fields carry short names that are fragments of the library's own field names
+        name = f"f{i}" if f["pick"] % 2 else ODD_NAMES[(f["pick"] // 2 + i * 5) % len(ODD_NAMES)]
+        if name in values:
+            name = f"f{i}"
         spec = {"name": name, "ann": a}
         if f.get("noninit"):
             src = source_of(v)
